@@ -13,6 +13,7 @@ import (
 
 func init() {
 	vRegister("l2_residue", H_l2_residue)
+	vRegister("l2_reuse14", H_l2_reuse14)
 }
 
 // reload returns Unmarshal(Marshal(st)) in a new instance.
@@ -90,6 +91,43 @@ func (c *vT) checkC05(q string) {
 
 // no residue: sequences of Unmarshal/Reset on one instance.
 // op codes: 0 Unmarshal(A), 1 Unmarshal(B), 2 Unmarshal(empty trie), 3 Reset.
+// C14 on a reused instance: the typed getters agree with Get after the instance, having already
+// answered typed and untyped queries for data A, is loaded with data B by a direct Unmarshal.
+func H_l2_reuse14() {
+	L := vParam("L")
+	enc := vParam("enc")
+	a := &vT{n: vParam("na"), optc: vParam("opta"), enc: enc}
+	a.keys = vSymKeys(vLens(vParam("lensa"), a.n, L), true)
+	a.symValues()
+	a.build()
+	b := &vT{n: vParam("nb"), optc: vParam("optb"), enc: enc}
+	b.keys = vSymKeys(vLens(vParam("lensb"), b.n, L), true)
+	b.symValues()
+	b.build()
+	sb, _ := b.st.Marshal()
+	inst := a.st
+	if vParamDef("viaload", 0) == 1 {
+		inst = a.reload(a.st)
+	}
+	q := vString("q", vParam("lq"))
+	a.st = inst
+	a.checkC14(q) // first use, on A
+	if a.n > 0 {
+		a.checkC14(a.keys[0])
+	}
+	err := inst.Unmarshal(sb)
+	vAssert(err == nil, "unmarshal-ok")
+	b.st = inst
+	b.checkC14(q)
+	for i := 0; i < b.n; i++ {
+		b.checkC14(b.keys[i])
+	}
+	// and the untyped answers are those of B
+	ref := b.reload(b.st)
+	b.sameAnswers(inst, ref, q, "C14.reuse")
+	vReach("end")
+}
+
 func H_l2_residue() {
 	L := vParam("L")
 	a := &vT{n: vParam("na"), optc: vParam("opta"), enc: vEncU16}
@@ -108,11 +146,18 @@ func H_l2_residue() {
 	seq := vParam("seq") // base-4 digits, length nops
 	nops := vParam("nops")
 	inst, _ := NewSlimTrie(a.encoder(), nil, nil)
+	qmid := ""
+	if a.n > 0 {
+		qmid = a.keys[0]
+	}
 	last := -1
 	for i := 0; i < nops; i++ {
 		op := seq % 4
 		seq /= 4
 		_ = inst.String() // rendering must not leave anything behind either
+		inst.Marshal()    // nor serialising
+		inst.Get(qmid)    // nor querying
+		inst.Search(qmid)
 		if op == 3 {
 			inst.Reset()
 		} else {
@@ -134,5 +179,9 @@ func H_l2_residue() {
 	vAssert(vDeepEqual(inst.inner, ref.inner), "C05.residue.message")
 	vAssert(vDeepEqual(inst.Stat(), ref.Stat()), "C05.residue.stat")
 	vAssert(inst.String() == ref.String(), "C19.same-after-load")
+	// re-marshalling the instance reproduces what it holds now, not what it held before
+	again := a.reload(inst)
+	a.sameAnswers(again, ref, q, "C05.residue.remarshal")
+	vAssert(vDeepEqual(again.Stat(), ref.Stat()), "C05.residue.remarshal.stat")
 	vReach("end")
 }
